@@ -514,7 +514,7 @@ pub fn step_describe(s: &Step, m: &RefState) -> String {
 pub fn step_refs(s: &Step) -> Vec<usize> {
     match s {
         Step::Apply(a) => a.args.clone(),
-        Step::ProbeSole { h } | Step::Flag { h, .. } | Step::Backward { h, .. } | Step::ReadGrad { h } | Step::ClearGrad { h, .. } | Step::Clone { h } | Step::Drop { h } => vec![*h],
+        Step::Copy { h } | Step::ProbeSole { h } | Step::Flag { h, .. } | Step::Backward { h, .. } | Step::ReadGrad { h } | Step::ClearGrad { h, .. } | Step::Clone { h } | Step::Drop { h } => vec![*h],
         Step::Rebind { target, spec } => {
             let mut v = spec.args.clone();
             v.push(*target);
